@@ -269,6 +269,28 @@ func ruleRecursionGuards(c *core.Ctx) {
 		n.guard = recogniseGuard(n.fn)
 		n.guarded = n.guard != ""
 	}
+	// the cycle check may sit in an unexported helper of the same package that
+	// reports the cycle as an error (followCached for Decode): the caller that
+	// invokes the helper is guarded like the helper
+	for _, n := range all {
+		if n.guarded {
+			continue
+		}
+		for _, cs := range core.CallsIn(n.fn.Info(), n.fn.Decl, true) {
+			if cs.Fn == nil || cs.Fn.Exported() || cs.Fn.Pkg() != n.fn.Obj.Pkg() {
+				continue
+			}
+			t := nodes[cs.Fn.Origin()]
+			if t == nil || !strings.HasPrefix(t.guard, "g1 ") {
+				continue
+			}
+			sig := cs.Fn.Type().(*types.Signature)
+			if sig.Results().Len() > 0 && core.TypeString(sig.Results().At(sig.Results().Len()-1).Type()) == "error" {
+				n.guarded = true
+				n.guard = "g1 through helper " + t.fn.Key
+			}
+		}
+	}
 	// thin wrappers that only forward to a guarded function are guarded too (DecodeOptional -> Decode)
 	for changed := true; changed; {
 		changed = false
